@@ -47,6 +47,7 @@ def build_network(case: dict, workdir: Path):
 
     Species.reset()
     net = case["net"]
+    provide_binding_energies(net)
     reacs = net["reactions"]
     alphas = case["alphas"]
     kw = dict(required_species=list(net.get("required") or []) or None)
@@ -85,6 +86,21 @@ def build_network(case: dict, workdir: Path):
         files.append(str(p))
         fmts.append(fmt)
     return Network(filelist=files, fileformats=fmts, **kw)
+
+
+def provide_binding_energies(net):
+    """Ice species need a binding energy at render time (eb_<alias> constants): give every generated ice
+    species one through the documented user table, under both surface-prefix spellings."""
+    from naunet import chemistrydata
+    eb = {}
+    for sp in net["species"]:
+        if sp["surface"]:
+            core = sp["name"][1:]
+            v = 800.0 + 37.0 * (sum(ord(c) for c in core) % 50)
+            eb["#" + core] = v
+            eb["G" + core] = v
+    if eb:
+        chemistrydata.update_binding_energy(eb)
 
 
 def render(net, backend: str, path: Path, jac_pattern=False):
